@@ -110,6 +110,13 @@ CHECKS = {
 
 ALL = ["C%02d" % i for i in range(1, 21)]
 
+# thorough tier only: coverage-guided stage (tools/fuzz_stage.py)
+_PC = "; thorough tier additionally: coverage-guided fuzzing (libFuzzer) of the same strategy and oracle (target prop_case: the fuzzer's bytes are the strategy's random stream)"
+FUZZ_NOTE = {p: _PC for p in ["C01", "C02", "C05", "C06", "C07", "C08", "C09", "C14", "C15", "C16", "C18", "C19"]}
+FUZZ_NOTE["C10"] = _PC + " and of a byte-level target (target_route: target string/level/module/message against the routing model)"
+FUZZ_NOTE["C17"] = _PC + " and of a byte-level target (spec_parse: bytes -> LogSpecification::parse against the reference parser)"
+FUZZ_NOTE["C13"] = "; thorough tier additionally: coverage-guided fuzzing (libFuzzer) of a byte-level target (target_route: target string/level/module/message against the routing model)"
+
 def hook_commits():
     try:
         out = subprocess.check_output(["git", "-C", "/repo", "log", "--format=%H %s"], text=True)
@@ -128,11 +135,11 @@ def main():
             "quick_cmd": f"./check.sh {pid} quick",
             "thorough_cmd": f"./check.sh {pid} thorough",
             "evidence_file": f"/verif/evidence/{pid}.json",
-            "replay_cmd_template": f"./harness/target/release/flv replay {pid} {{path}}",
+            "replay_cmd_template": f"./replay.sh {pid} {{path}}",
             "engine": "flv",
             "level_claimed": {"category": level, "text": text, "design_ref": ref},
             "level_note": note,
-            "technique": technique,
+            "technique": technique + (FUZZ_NOTE.get(pid, "")),
         })
     na = [{"property_id": p, "reason": "check not built yet in this session (planned, see DESIGN.md section 4); no claim is made"}
           for p in ALL if p not in CHECKS]
@@ -149,6 +156,8 @@ def main():
         "engines": [
             {"name": "flv", "path": "/verif/harness", "serves_properties": sorted(CHECKS.keys()),
              "kind_free_text": "Rust binary: proptest strategies driven from a TestRunner with fixed seeds, sharded over worker processes; scenario interpreter against the real flexi_logger + reference models; shrinking to JSON replay files; regression replay tier (regress/)"},
+            {"name": "flv-fuzz", "path": "/verif/fuzz", "serves_properties": sorted(FUZZ_NOTE.keys()),
+             "kind_free_text": "cargo-fuzz crate (libFuzzer, nightly toolchain, no sanitizer) with three targets: prop_case (a property's proptest strategy driven by the fuzzer's bytes through a pass-through RNG, judged by the property's oracle; failures become ordinary JSON replay files), spec_parse and target_route (byte-level targets with the semantic oracle inside). Driven by /verif/tools/fuzz_stage.py from check.sh in the thorough tier: fixed -runs/-seed per job, 8 jobs, fresh corpus + /verif/fuzz/seeds, every failure verified in a fresh process before it is reported; statistics merged into the evidence file. Built with a patched copy of proptest (fuzz/vendor/proptest, pass-through RNG only)."},
         ],
         "checks": checks,
         "not_applicable": na,
